@@ -54,7 +54,9 @@ MANIFEST = {
              "abstract series op of the two inputs (overlay/underlay/prepend/clip) resp. satisfy the dictionary equations of "
              "keep/remove/rename-to-fresh-names/rename-onto-an-existing-name/merge (`mergeSpec`); overlay/underlay/prepend apply exactly "
              "when both items are series of the same known frequency, integer included; in a sequence a name ends up as the last "
-             "operation selecting it left it. The model is tied to the code on "
+             "operation selecting it left it; option resolution of the spellings of one call (`merge_strategy_resolution`: the legacy "
+             "`action=` decides when given, else the explicit strategy, else stack; `by_merging` = merge into an empty databox; "
+             "`legacy_option_resolution` of the reader), every operation being exercised through all its public spellings. The model is tied to the code on "
              "every run by exact comparison of the parsed CSV grid, the re-imported databox, dataslate arrays and period operations, "
              "and one-step databox operations (symbolic series terms evaluated with the real Series methods), plus independent "
              "oracles on the real objects that supply the replay."),
@@ -68,7 +70,6 @@ ASSUMPTIONS = [
     "cell parsing are runtime facts (checked on every generated case by the oracle, not proved)",
     "Period.from_sdmx_string(str(p), frequency=f) == p is the codec law the round-trip theorem assumes (checked on every generated "
     "period; proved only for the model's own SDMX codec by correspondence)",
-    "values with |x| >= 1e296 are outside the generators: numpy.round(x, 12) overflows to inf there",
     "names / descriptions containing line breaks are a separate stream (see notes/C19.md)",
 ]
 
@@ -118,9 +119,17 @@ def show_series(name: str, s: Series) -> str:
     return "~".join([enc(name), enc(s.get_description() or ""), f, str(start), str(s.data.shape[1]), enc_rows(s.data)])
 
 
+def round_declared(a: np.ndarray, digits: int) -> np.ndarray:
+    """the declared rounding of the exporter: to `digits` decimals; a finite value too large for numpy.round's scaling (it would
+    overflow to inf) is not changed by any rounding to decimals"""
+    with np.errstate(over="ignore"):
+        r = np.round(a, digits)
+    return np.where(np.isinf(r) & np.isfinite(a), a, r)
+
+
 def enc_item(name: str, v, round_to=None) -> str:
     if isinstance(v, Series):
-        data = v.data if round_to is None else np.round(v.data, round_to)
+        data = v.data if round_to is None else round_declared(v.data, round_to)
         return enc_series(name, v, data)
     if isinstance(v, list):
         return "~".join(["L", enc(name), ",".join(tok(x) for x in v)])
@@ -146,7 +155,10 @@ DESCS = ["", "", "GDP", "Consumer prices, all items", 'He said "hi"', "*", "semi
 
 
 def gen_value(rng) -> float:
-    k = rng.weighted([("dyadic", 4), ("int", 2), ("decimal", 4), ("big", 1), ("tiny", 1), ("third", 1), ("inf", 0.15), ("negzero", 0.1)])
+    k = rng.weighted([("dyadic", 4), ("int", 2), ("decimal", 4), ("big", 1), ("tiny", 1), ("third", 1), ("inf", 0.15), ("negzero", 0.1),
+                      ("huge", 0.12)])
+    if k == "huge":
+        return (1.0 + rng.random()) * (-1.0 if rng.chance(0.5) else 1.0) * 10.0 ** rng.randint(290, 307)
     if k == "dyadic":
         return rng.dyadic(-64, 64, 4)
     if k == "int":
@@ -277,16 +289,24 @@ def has_options(case) -> bool:
     return bool(case.get("span")) or case.get("fspan") is not None or case.get("names") is not None
 
 
-def impl_csv(db: Databox, desc_row: bool, tmpdir: str, tag: str, delimiter: str = ",", options: dict | None = None):
-    """(canonical line, re-imported databox or exception)"""
+def impl_csv(db: Databox, desc_row: bool, tmpdir: str, tag: str, delimiter: str = ",", options: dict | None = None, alias: dict | None = None):
+    """(canonical line, re-imported databox or exception); `alias`: which public spelling of the writer / reader is used"""
     path = os.path.join(tmpdir, f"{tag}.csv")
     kw = {} if delimiter == "," else {"delimiter": delimiter}
-    db.to_csv_file(path, description_row=desc_row, when_empty="silent", **kw, **(options or {}))
+    alias = alias or {}
+    getattr(db, alias.get("writer", "to_csv_file"))(path, description_row=desc_row, when_empty="silent", **kw, **(options or {}))
     with open(path, "rt", encoding="utf-8-sig", newline="") as fid:
         rows = list(csv.reader(fid, delimiter=delimiter))
     grid = canon_grid(rows, 2 if desc_row else 1)
     try:
-        back = Databox.from_csv_file(path, description_row=desc_row, **kw)
+        rkw = dict(kw)
+        with warnings.catch_warnings():
+            warnings.simplefilter("ignore")
+            if alias.get("period_option") == "legacy":
+                rkw["date_creator"] = D.Period.from_sdmx_string            # deprecated spelling of period_from_string
+            elif alias.get("period_option") == "new":
+                rkw["period_from_string"] = D.Period.from_sdmx_string
+            back = getattr(Databox, alias.get("reader", "from_csv_file"))(path, description_row=desc_row, **rkw)
         imp = ";".join(show_series(k, v) for k, v in back.items()) if len(back) else "-"
     except Exception as e:
         back = e
@@ -462,7 +482,9 @@ def run_csv_cases(ctx: Ctx, cases: list, stream="csv"):
         reqs, impls = [], []
         for i, (db, desc_row, case) in enumerate(cases):
             try:
-                line, back = impl_csv(db, desc_row, tmpdir, f"f{i}", case.get("delimiter", ","), export_options(case))
+                line, back = impl_csv(db, desc_row, tmpdir, f"f{i}", case.get("delimiter", ","), export_options(case), case.get("alias"))
+                if case.get("alias"):
+                    ctx.count("csv_writer_" + case["alias"].get("writer", "to_csv_file")); ctx.count("csv_reader_" + case["alias"].get("reader", "from_csv_file"))
             except Exception as e:
                 line, back = "export-raises " + err_kind(e), e
                 ctx.fail("csv-export-raises", case, f"to_csv_file raised {e!r}")
@@ -516,6 +538,10 @@ def gen_csv_cases(ctx: Ctx, n: int, tag="csv"):
         delim = rng.weighted([(",", 9), (";", 0.7), ("\t", 0.3)])
         case = {"kind": "csv", "sub": i, "desc_row": desc_row, "delimiter": delim, "box": describe_box(db)}
         case.update(gen_export_selection(rng, db))
+        # the public spellings of the same writer / reader (aliases, deprecated option names)
+        case["alias"] = {"writer": rng.weighted([("to_csv_file", 5), ("to_csv", 2), ("to_sheet", 2)]),
+                         "reader": rng.weighted([("from_csv_file", 5), ("from_csv", 2), ("from_sheet", 2)]),
+                         "period_option": rng.weighted([("default", 6), ("new", 2), ("legacy", 2)])}
         out.append((db, desc_row, case))
     return out
 
@@ -1019,6 +1045,15 @@ def gen_op_box(rng, prefix: str, names=None, freqs=("Q", "M", "I")) -> Databox:
 
 
 def gen_op(rng, db: Databox):
+    op = _gen_op(rng, db)
+    # the same call through its other public spellings: keyword arguments instead of positional ones, the function taken from the
+    # class (`Databox.rename(db, ...)`) instead of the bound method
+    op["kw"] = rng.chance(0.4)
+    op["unbound"] = rng.chance(0.25)
+    return op
+
+
+def _gen_op(rng, db: Databox):
     kind = rng.weighted([("rename", 3), ("remove", 2), ("keep", 2), ("copy", 2), ("overlay", 3), ("underlay", 3), ("clip", 2),
                          ("prepend", 2), ("merge", 3)])
     keys = list(db.keys())
@@ -1087,8 +1122,12 @@ def gen_op(rng, db: Databox):
                 f = kinds[n][1]
                 o[n] = gen_series(rng, f if f in BASE else "Q", center_shift=3, max_len=5, desc=False)
         others.append(describe_box(o))
-    return {"op": "merge", "strategy": rng.choice(["stack", "stack", "replace", "discard", "silent", "warning", "error", "hstack"]),
-            "others": others}
+    strategies = ["stack", "stack", "replace", "discard", "silent", "warning", "error", "hstack"]
+    spelling = rng.weighted([("positional", 3), ("keyword", 2), ("legacy", 3), ("default", 1), ("both", 0.7), ("by_merging", 1)])
+    out = {"op": "merge", "strategy": "stack" if spelling == "default" else rng.choice(strategies), "spelling": spelling, "others": others}
+    if spelling == "both":
+        out["explicit"] = rng.choice(strategies)          # merge_strategy=<explicit>, action=<strategy>: the code lets `action` decide
+    return out
 
 
 def shape_box(db: dict, prefix: str, registry: dict) -> str:
@@ -1125,29 +1164,60 @@ def op_request(db: Databox, op: dict, registry: dict) -> tuple[str, list]:
     if k == "clip":
         return head + f"clip {op['f']} {'-' if op['lo'] is None else op['lo']} {'-' if op['hi'] is None else op['hi']}", []
     others = [box_from_description(o) for o in op["others"]]
-    return head + f"merge {op['strategy']} " + " ".join(shape_box(o, f"o{i}_", registry) for i, o in enumerate(others)), others
+    sp = op.get("spelling", "positional")
+    ex, lg = {"positional": (op["strategy"], "-"), "keyword": (op["strategy"], "-"), "legacy": ("-", op["strategy"]),
+              "default": ("-", "-"), "both": (op.get("explicit", "stack"), op["strategy"]), "by_merging": (op["strategy"], "-")}[sp]
+    shapes = " ".join(shape_box(o, f"o{i}_", registry) for i, o in enumerate(others))
+    if sp == "by_merging":
+        # Databox.by_merging([db, *others], strategy): an empty databox, then merge
+        return "op - " + f"mergecall {ex} {lg} " + shape_box(db, "s", registry) + " " + shapes, others
+    return head + f"mergecall {ex} {lg} " + shapes, others
 
 
 def apply_real(db: Databox, op: dict, others: list):
-    """the real Databox call; returns the databox that carries on (copy returns a new one)"""
+    """the real Databox call, through the spelling the case asks for; returns the databox that carries on"""
     k = op["op"]
+    kw, unbound = bool(op.get("kw")), bool(op.get("unbound"))
+    def call(name, pos, named, extra=None):
+        """pos: positional arguments, named: their keyword names (used instead when the case says `kw`)"""
+        f = (lambda *a, **b: getattr(Databox, name)(db, *a, **b)) if unbound else getattr(db, name)
+        if kw:
+            return f(**dict(zip(named, pos)), **(extra or {}))
+        return f(*pos, **(extra or {}))
     if k == "rename":
-        db.rename(sel_py(op["sel"]), tgt_py(op["tgt"]), strict_names=op["strict"]); return db
+        call("rename", [sel_py(op["sel"]), tgt_py(op["tgt"])], ["source_names", "target_names"], {"strict_names": op["strict"]}); return db
     if k == "remove":
-        db.remove(None if op["sel"] is None else sel_py(op["sel"]), strict_names=op["strict"]); return db
+        call("remove", [None if op["sel"] is None else sel_py(op["sel"])], ["remove_names"], {"strict_names": op["strict"]}); return db
     if k == "keep":
-        db.keep(None if op["sel"] is None else sel_py(op["sel"]), strict_names=op["strict"]); return db
+        call("keep", [None if op["sel"] is None else sel_py(op["sel"])], ["keep_names"], {"strict_names": op["strict"]}); return db
     if k == "copy":
-        return db.copy(None if op["sel"] is None else sel_py(op["sel"]), None if op["tgt"] is None else tgt_py(op["tgt"]), strict_names=op["strict"])
+        return call("copy", [None if op["sel"] is None else sel_py(op["sel"]), None if op["tgt"] is None else tgt_py(op["tgt"])],
+                    ["source_names", "target_names"], {"strict_names": op["strict"]})
     if k in ("overlay", "underlay"):
-        getattr(db, k)(others[0], names=op["names"], strict_names=op["strict"]); return db
+        call(k, [others[0]], ["other"], {"names": op["names"], "strict_names": op["strict"]}); return db
     if k == "prepend":
-        db.prepend(others[0], period(op["f"], op["stop"])); return db
+        call("prepend", [others[0], period(op["f"], op["stop"])], ["other", "end_prepending"]); return db
     if k == "clip":
-        db.clip(None if op["lo"] is None else period(op["f"], op["lo"]), None if op["hi"] is None else period(op["f"], op["hi"])); return db
+        call("clip", [None if op["lo"] is None else period(op["f"], op["lo"]), None if op["hi"] is None else period(op["f"], op["hi"])],
+             ["new_start_date", "new_end_date"]); return db
+    sp = op.get("spelling", "positional")
+    arg = others if len(others) != 1 else others[0]
+    f = (lambda *a, **b: Databox.merge(db, *a, **b)) if unbound else db.merge
     with warnings.catch_warnings():
         warnings.simplefilter("ignore")
-        db.merge(others if len(others) != 1 else others[0], op["strategy"]); return db
+        if sp == "positional":
+            f(arg, op["strategy"])
+        elif sp == "keyword":
+            f(arg, merge_strategy=op["strategy"])
+        elif sp == "legacy":
+            f(arg, action=op["strategy"])
+        elif sp == "default":
+            f(arg)
+        elif sp == "both":
+            f(arg, merge_strategy=op.get("explicit", "stack"), action=op["strategy"])
+        else:
+            return Databox.by_merging([db] + list(others), op["strategy"])
+    return db
 
 
 def eval_term(t: str, registry: dict) -> Series:
@@ -1366,21 +1436,34 @@ def oracle_op(ctx: Ctx, case, pre: Databox, pre_snapshot: Databox, others, post)
         selected = set()
         for o in others:
             selected |= set(o.keys())
-        st = op["strategy"]
+        # the strategy the caller asked for, whatever the spelling; with both keywords given the intention is not defined
+        st = None if op.get("spelling") == "both" else op["strategy"]
         for n in selected:
             if n not in post:
                 ctx.fail("op-merge", case, f"{n!r} missing after merge"); continue
             incoming = [o[n] for o in others if n in o]
+            if st in ("stack", "hstack"):
+                have = ([pre_snapshot[n][1]] if n in pre_snapshot else []) + incoming
+                if len(have) > 1 and all(isinstance(x, Series) for x in have):
+                    want = have[0].copy()
+                    for x in have[1:]:
+                        want = want | x.copy()
+                    if not isinstance(post[n], Series) or not series_equal(post[n], want):
+                        ctx.fail("op-merge", case, f"{n!r}: must be the series stacked as variants under {st} (spelling {op.get('spelling')})")
+                elif len(have) > 1 and not any(isinstance(x, Series) for x in have):
+                    want = [y for x in have for y in (x if isinstance(x, list) else [x])]
+                    if not value_equal(post[n], want):
+                        ctx.fail("op-merge", case, f"{n!r}: must be the concatenated list {want} under {st} (spelling {op.get('spelling')})")
             if n not in pre_snapshot:
                 first = incoming[0]
-                if st in ("discard", "silent", "warning") and not value_equal(post[n], first):
+                if st in ("discard", "silent", "warning", "replace") and len(incoming) == 1 and not value_equal(post[n], first):
                     ctx.fail("op-merge", case, f"{n!r}: a new key must take the first incoming value under {st}")
             elif st in ("discard", "silent", "warning"):
-                if post[n] is not pre_snapshot_obj(pre_snapshot, n):
-                    ctx.fail("op-merge", case, f"{n!r}: existing value must be kept under {st}")
+                if not value_equal(post[n], pre_snapshot[n][1]):
+                    ctx.fail("op-merge", case, f"{n!r}: existing value must be kept under {st} (spelling {op.get('spelling')})")
             elif st == "replace":
                 if not value_equal(post[n], incoming[-1]):
-                    ctx.fail("op-merge", case, f"{n!r}: must be replaced by the last incoming value")
+                    ctx.fail("op-merge", case, f"{n!r}: must be replaced by the last incoming value (spelling {op.get('spelling')})")
     # the frame: unselected names keep their object, their value and their relative order
     rest = [n for n in keys if n not in selected]
     for n in rest:
@@ -1444,9 +1527,9 @@ def legit_exception(op, keys, pre: dict, others) -> bool:
     for o in others:
         for n, v in o.items():
             if n in seen:
-                if op["strategy"] in ("error", "critical"):
+                if op["strategy"] in ("error", "critical") or op.get("explicit") in ("error", "critical"):
                     return True
-                if op["strategy"] in ("stack", "hstack"):
+                if op["strategy"] in ("stack", "hstack") or op.get("explicit") in ("stack", "hstack"):
                     if isinstance(v, Series) != isinstance(seen[n], Series):
                         return True
                     if isinstance(v, Series) and _raises(lambda: seen[n] | v):
@@ -1492,7 +1575,15 @@ def run_op_sequences(ctx: Ctx, nseq: int, tag="ops", seqs=None):
                 post = apply_real(db, op, others)
             except Exception as e:
                 post = e
-            oracle_op(ctx, case, db, snapshot, others_real, post)
+            if op["op"] == "merge" and op.get("spelling") == "by_merging":
+                # Databox.by_merging([db, *others]) = merge into an empty databox: the oracle sees it that way
+                oracle_op(ctx, case, Databox(), {}, [Databox({n: v[1] for n, v in snapshot.items()})] + others_real, post)
+                pre_objs = {}
+            else:
+                oracle_op(ctx, case, db, snapshot, others_real, post)
+            ctx.count("op_spelling_" + ("kw" if op.get("kw") else "pos") + ("_unbound" if op.get("unbound") else ""))
+            if op["op"] == "merge":
+                ctx.count("op_merge_spelling_" + op.get("spelling", "positional"))
             reqs.append(req)
             metas.append((case, post if isinstance(post, Exception) else {n: (v, copy.deepcopy(v)) for n, v in post.items()}, registry, pre_objs))
             ctx.count("op_" + op["op"]); ctx.count("op_steps")
